@@ -83,7 +83,9 @@ def edge_spec(g, prof, eid, src, dst, kinds=None):
         e["delay"] = g.pick([0.5, 1, 2, 1.3, 3])
         e["transit"] = g.pick([0, 0.5, 1, 0.3, 2])
     elif kind == "ContinuousConveyor":
-        L, il, v = g.pick([(4, 1, 1), (3, 1, 1), (2, 1, 2), (4, 2, 1), (5, 1, 0.5), (2, 0.5, 1), (3, 0.5, 2), (6, 2, 3)])
+        # flow items created by a Source have length 1 (its item_length default): conveyors in factories are
+        # configured for that item length (a conveyor built for another item length is a modelling error)
+        L, il, v = g.pick([(4, 1, 1), (3, 1, 1), (2, 1, 2), (5, 1, 0.5), (6, 1, 3), (3, 1, 2), (2, 1, 1), (4, 1, 2)])
         e.update(L=L, il=il, v=v, acc=g.n(2))
     elif kind == "SlottedConveyor":
         e.update(capacity=1 + g.n(5), delay=g.pick([1, 0.5, 2, 0.7]), acc=g.n(2))
